@@ -322,7 +322,7 @@ func Try(f func()) (panicked bool, what string) {
 			st := string(debug.Stack())
 			// keep the innermost circl frame for the key
 			for _, ln := range strings.Split(st, "\n") {
-				if strings.Contains(ln, "/repo/") && !strings.Contains(ln, "zz_verif") && !strings.Contains(ln, "verifmc") {
+				if strings.Contains(ln, repoRoot()+"/") && !strings.Contains(ln, "zz_verif") && !strings.Contains(ln, "verifmc") {
 					what += " @ " + strings.TrimSpace(ln)
 					break
 				}
@@ -331,6 +331,13 @@ func Try(f func()) (panicked bool, what string) {
 	}()
 	f()
 	return false, ""
+}
+
+func repoRoot() string {
+	if r := os.Getenv("VERIF_REPO"); r != "" {
+		return r
+	}
+	return "/repo"
 }
 
 // PanicSite extracts a short "file:line" of the innermost circl frame from the
@@ -344,7 +351,11 @@ func PanicSite(what string) string {
 	if j := strings.Index(s, " "); j >= 0 {
 		s = s[:j]
 	}
-	s = strings.TrimPrefix(s, "/repo/")
+	root := os.Getenv("VERIF_REPO")
+	if root == "" {
+		root = "/repo"
+	}
+	s = strings.TrimPrefix(s, root+"/")
 	if j := strings.LastIndex(s, ":"); j >= 0 {
 		s = s[:j] // drop the line so keys survive unrelated edits
 	}
